@@ -166,7 +166,7 @@ def drive(pid, tier, seed, workers=None):
         if nw > 1 and w == nw - 1 and getattr(prop, "OPTIMISED_WORKER", True):
             # the last worker runs its share of the cases the way `python -O` does (assert statements compiled away): code that
             # relies on an assert for something it must do shows there
-            wenv = dict(env, PYTHONOPTIMIZE="1")
+            wenv = dict(env, PYTHONOPTIMIZE="2" if seed % 2 == 0 else "1")      # -OO on even seeds: docstrings are gone too
         p = subprocess.Popen([PY, "-m", "vf.core", "--worker", pid, tier, str(seed), str(w), str(nw), out],
                              cwd=VERIF, env=wenv, stdout=subprocess.PIPE, stderr=subprocess.STDOUT)
         procs.append((p, out))
